@@ -94,6 +94,23 @@ func trRewrites() []RewriteSpec {
 }
 
 var specs = map[string]*Spec{
+	"C03": {
+		ID: "C03", Title: "Concurrent programs: Go outcomes are GooseLang outcomes, over all schedules",
+		Driver: "./drivers/c03drv", ModFile: "go.mod", GenN: 200,
+		Flavours: []string{"plain", "race"},
+		Quick:    TierParams{Runs: 40000, RaceRuns: 3000, Budget: 6 * time.Minute},
+		Thorough: TierParams{Budget: 24 * time.Minute, Rounds: 6},
+		Level:    "exploration",
+		Rule: "per round a seeded batch of 200 closed, data-race-free-by-construction Go functions (go statements incl. nested and loop spawns, sync.Mutex, sync.Cond, sync.WaitGroup, machine.Sleep, machine.WaitTimeout polling loops; shared state in heap cells, captured vars, struct fields behind pointers with methods; classes: deterministic-by-construction and schedule-dependent) is generated, translated by the goose built from the working tree, and compiled (sync->simsync, go->simrt.Go, yield before every statement) into the driver. " +
+			"Each run: one program under one seeded Go schedule (uniform / sticky / PCT) gives Go's result and its order of synchronisation events; the GooseLang text of the same program is executed on the glang interpreter along that order (schedule transfer) and must give Go's result, otherwise 300 random interleavings are searched for it; deterministic-class programs are additionally run on 3 random complete interleavings each of which must return the same value without cell race, stuck thread, deadlock or divergence. The -race build re-runs the Go side only (validates that the generator's programs are race-free; a Go race is INFRA, not a violation). " +
+			"Non-trivial: the Go run had more than two context switches; distinct = distinct fingerprints of (Go event log, GooseLang interleavings).",
+		Components: map[string]string{"goose translator (cmd/goose, goose.go, types.go, internal/coq)": "real: built from /repo's working tree and run on the generated package",
+			"generated Go programs":                       "real Go code, instrumented (yields, simrt.Go); sync and the machine time primitives are stubs (simsync, simmachine on the simulated clock)",
+			"GooseLang semantics":                         "stub: verif/glang reader + interpreter of the emitted notation (Perennial/Coq is not installed); lock/cond/waitgroup/Fork semantics as in DESIGN.md appendix C; validated against the 86 test* functions of /repo's semantics package",
+			"goroutine / thread scheduling on both sides": "stub: verif/simrt, one tape per run"},
+		Assumptions:  []string{"my reading of GooseLang's library semantics (lock = CAS spin, cond signal/broadcast = no-ops, condWait = release;acquire, waitgroup = counter, non-atomic loads/stores whose races make the machine stuck) is part of the oracle and cannot be cross-checked against Perennial offline", "only programs of the generator's shape are explored"},
+		ExpectProbes: []string{"go_runs", "guided_reproduced", "gl_interleavings"},
+	},
 	"C06": {
 		ID: "C06", Title: "Translation is deterministic and packages do not influence each other",
 		Driver: "./drivers/c06drv", ModFile: "go.mod",
